@@ -53,6 +53,7 @@ type FnCtx struct {
 	top       *Frame
 	ghostVals map[string]*Val
 	notes     []string
+	inlined   map[string]bool
 }
 
 type exitRec struct {
@@ -63,6 +64,7 @@ type exitRec struct {
 type loopCut struct {
 	spec      *LoopSpec
 	variant   *Term
+	progress  []*Term
 	ordinal   int
 	header    *ssa.BasicBlock
 	entryOld  *State
@@ -83,6 +85,7 @@ type Frame struct {
 	allocAt map[*ssa.Alloc]bool
 	contract *Contract
 	rangeMaps map[*ssa.Range]*Val
+	fnConsts map[string]*ssa.Function // function constants seen (candidates for dynamic calls)
 }
 
 func (c *FnCtx) errorf(f string, a ...interface{}) {
@@ -633,7 +636,8 @@ func (fr *Frame) get(st *State, v ssa.Value) *Val {
 	case *ssa.Const:
 		return constToVal(x)
 	case *ssa.Function:
-		return &Val{K: VScalar, T: x.Type(), X: App("fn."+x.RelString(nil), SInt), Fn: &FuncVal{Fn: x}}
+		fr.fnConsts[x.RelString(nil)] = x
+		return &Val{K: VScalar, T: x.Type(), X: fnID(x.RelString(nil)), Fn: &FuncVal{Fn: x}}
 	case *ssa.Global:
 		return ptrVal(x.Type(), &Addr{Kind: AGlobal, Glob: x})
 	case *ssa.Builtin:
@@ -708,6 +712,9 @@ func (fr *Frame) localByName(st *State, name string) *Val {
 	if pv == nil {
 		return nil
 	}
+	if _, isStruct := derefType(best.Type()).Underlying().(*types.Struct); isStruct && (pv.Addr == nil || pv.Addr.Kind != ACell) {
+		return pv // addressable struct local: its address carries the identity (ghost fields) and gives field access
+	}
 	return fr.c.load(st, pv)
 }
 
@@ -740,4 +747,16 @@ func escapes(a *ssa.Alloc) bool {
 		return false
 	}
 	return check(a)
+}
+
+// function constants are distinct negative integers
+var fnIDs = map[string]int64{}
+
+func fnID(name string) *Term {
+	id, ok := fnIDs[name]
+	if !ok {
+		id = int64(len(fnIDs) + 1)
+		fnIDs[name] = id
+	}
+	return Num(-2000000 - id)
 }
